@@ -9,7 +9,7 @@ from lib.coqterm import cbytes, cbool, copt, clist, cN, hx, unhx
 
 ID = "C31"
 QUICK_N = 1000
-THOROUGH_N = 12000
+THOROUGH_N = 5000
 SHARD = 100
 COQ_PRELUDE = "From MV Require Import Model.Encoding.\n"
 RULE = ("each case is one history of 1-10 calls on a fresh cache: raw encoding.decode/encode calls and "
